@@ -110,6 +110,13 @@ Proof.
   intros H. unfold int_const. destruct (span (ishex nouni) (c :: t)) as [h r1]. cbn [andb]. cbn [span]. rewrite H. reflexivity.
 Qed.
 
+Lemma int_match_nondigit c t : (c =? 48)%N = false -> isd nouni c = false -> int_match nouni nouni (c :: t) = None.
+Proof.
+  intros H0 Hd. unfold int_match, hex_start. rewrite H0. cbn [andb]. unfold int_match_old.
+  rewrite (int_const_false_nondigit c t Hd). destruct c as [|p]; [reflexivity|].
+  repeat (destruct p as [p|p|]; try reflexivity). discriminate.
+Qed.
+
 Lemma ident_first_start c : chr_in c ident_first = true -> is_ident_start c = true.
 Proof.
   intros Hc. apply chr_in_In in Hc. vm_compute in Hc. repeat (destruct Hc as [<-|Hc]; [reflexivity|]). contradiction.
@@ -123,7 +130,7 @@ Proof.
   intros Hc. apply chr_in_In in Hc. vm_compute in Hc. destruct x as [rs o l c0 e]. cbn [rest]. intros ->.
   repeat (destruct Hc as [<-|Hc];
     [split; [vm_compute; reflexivity|]; split; [vm_compute; reflexivity|];
-     split; [unfold parse_integer_literal, int_match; cbn [rest]; rewrite int_const_false_nondigit by reflexivity; reflexivity|];
+     split; [unfold parse_integer_literal; cbn [rest]; rewrite int_match_nondigit by reflexivity; reflexivity|];
      split; vm_compute; reflexivity|]).
   contradiction.
 Qed.
